@@ -95,7 +95,7 @@ export function gdbSignature(req, mode /* "crash" | "hang" */) {
   let out = "";
   try {
     if (mode === "crash") {
-      const r = spawnSync("gdb", ["-batch", "-ex", "run", "-ex", "bt 80", "--args", BEFFC, "--once", f], {
+      const r = spawnSync("gdb", ["-batch", "-ex", "run", "-ex", "bt 400", "--args", BEFFC, "--once", f], {
         encoding: "utf8",
         timeout: 120000,
         maxBuffer: 1 << 26,
@@ -104,7 +104,7 @@ export function gdbSignature(req, mode /* "crash" | "hang" */) {
     } else {
       const child = spawn(BEFFC, ["--once", f], { stdio: "ignore" });
       spawnSync("sleep", ["2"]);
-      const r = spawnSync("gdb", ["-p", String(child.pid), "-batch", "-ex", "thread apply all bt 60"], {
+      const r = spawnSync("gdb", ["-p", String(child.pid), "-batch", "-ex", "thread apply all bt 400"], {
         encoding: "utf8",
         timeout: 60000,
         maxBuffer: 1 << 26,
@@ -116,11 +116,19 @@ export function gdbSignature(req, mode /* "crash" | "hang" */) {
     fs.rmSync(dir, { recursive: true, force: true });
   }
   const fns = new Set();
-  for (const m of out.matchAll(/\b(beff_core::[A-Za-z0-9_:<>{}]+)/g)) {
-    let name = m[1].replace(/::\{closure[^}]*\}/g, "").replace(/<[^>]*>/g, "");
-    name = name.split("::").slice(0, 5).join("::");
-    if (/::(clone|drop|fmt|eq|cmp|hash)$/.test(name)) continue;
-    fns.add(name);
+  const counts = new Map();
+  let frames = 0;
+  for (const line of out.split("\n")) {
+    // "#3  0x... in extract_type_query<bvh::VFileManager> () at /repo/packages/beff-core/src/frontend/mod.rs:2699"
+    const m = /^#\d+\s+(?:0x[0-9a-f]+ in )?([A-Za-z_][\w:]*)(?:<.*>)? \(.*\) at .*packages\/(beff-[a-z]+)\/src\/([\w\/]+)\.rs:\d+/.exec(line);
+    if (!m) continue;
+    if (++frames > 400) break;
+    const fn = m[1].split("::").pop();
+    if (/^(clone|drop|fmt|eq|cmp|partial_cmp|hash|drop_in_place|call_once|from_iter|next|fold|map|collect)$/.test(fn)) continue;
+    counts.set(`${m[3]}:${fn}`, (counts.get(`${m[3]}:${fn}`) || 0) + 1);
   }
-  return [...fns].sort().slice(0, 12);
+  // the recursion cycle: functions that recur; fall back to the top frames for a non-recursive stack
+  for (const [k, n] of counts) if (n >= 3) fns.add(k);
+  if (fns.size === 0) for (const k of [...counts.keys()].slice(0, 6)) fns.add(k);
+  return [...fns].sort();
 }
